@@ -668,3 +668,9 @@ PROPS["C02"]["rule"] += " Server addresses with a zone are generated among the s
 
 PROPS["C03"]["rule"] += " DNSSL lists include names with an empty label (absolute form example.org., a..b, ., .lan): accepted or not, what is built must survive the wire unchanged (finding F24)."
 PROPS["C02"]["rule"] += " Domain names with an empty label are generated among the special spellings and left unjudged (not stated)."
+
+PROPS["C10"]["rule"] += " Live sub-check: write latencies also 5 s and 40 s; system call errors also ENETUNREACH, EADDRNOTAVAIL, ENOMEM, EMSGSIZE (recoverable) and EPERM, EACCES (fatal); no dial may begin after the stop request (finding F25). Policy cases: a dial takes 10 ms, 40 ms, 2 s or 20 s; a cancellation that precedes the zero-length first back-off wait must end in a clean return (was unjudged before F25)."
+PROPS["C11"]["rule"] += " A dial takes 10 ms, 40 ms, 2 s or 20 s."
+PROPS["C07"]["rule"] += " One latency case in four has transmissions of 500 ms - 1 ns, 500 ms, 600 ms, 3 s, 3 s + 1 ns or 20 s."
+PROPS["C06"]["rule"] += " One random history in four has slow transmissions (1 ns .. 10 s, incl. 3 s - 1 ns, 3 s, 3 s + 1 ns; to all-nodes, to hosts, or both)."
+PROPS["C08"]["rule"] += " State reads take up to 4 s."
